@@ -40,4 +40,29 @@ PROPS["C19"] = {
     ],
 }
 
+_fmt_assume = [
+    "normal form implements only the documented rewrites: remove->unset (should_use_unset), property lists as sorted lists (sort_declaration_property), top-level declarations as a multiset (sort_declaration); Explicit, else-if spelling, return parentheses, trailing commas, comments and positions are presentational",
+]
+PROPS["C03"] = {
+    "level": "exploration",
+    "technique": "property-based testing (rapid): metamorphic round trip parse(format(x)) == parse(x) modulo documented rewrites, over grammar programs x formatter configurations, plus examples/",
+    "level_text": "Generated programs x generated configurations, oracle = structural equality of canonical trees after documented normalisations; panics and unparseable output are failures. Exploration of generated shapes/configs only.",
+    "campaigns": [rapid("rapid", 100000, 1500000)],
+    "assumptions": _fmt_assume,
+}
+PROPS["C14"] = {
+    "level": "exploration",
+    "technique": "property-based testing (rapid): idempotence law fmt(fmt(x)) == fmt(x) byte-for-byte over grammar programs x configurations, plus examples/",
+    "level_text": "Algebraic law checked on generated programs with comments/blank lines/wrapping and all option combinations drawn at random. Exploration only.",
+    "campaigns": [rapid("rapid", 100000, 1500000)],
+    "assumptions": ["evaluated only when the first output parses (otherwise C03 reports)"],
+}
+PROPS["C15"] = {
+    "level": "exploration",
+    "technique": "property-based testing (rapid): comments with serial numbers placed at documented placeholders; lexer-level COMMENT token sequence of input vs output",
+    "level_text": "Each generated comment carries a unique serial, placed only at placeholders documented in docs/parser.md; the output must contain each exactly once, in order (multiset when a sort option is on), modulo the configured marker style. Exploration only.",
+    "campaigns": [rapid("rapid", 100000, 1500000)],
+    "assumptions": ["comment marker conversion is compared as 'is a line comment with the same text after the marker run'", "a comment on its own line after the last declaration is not generated (not a documented placeholder)"],
+}
+
 NOT_APPLICABLE = {}
